@@ -127,6 +127,21 @@ def main():
         pk[name] = Pkg(name, sc).prepare(yardl, home, cpp=(name == "own"))
     own = pk["own"]
     schemas = {n: p.schema for n, p in pk.items()}
+    # two closures that differ only inside an imported type whose simple name also exists in the importing package
+    clash = {}
+    for name, vt in (("clash_int", "int"), ("clash_string", "string")):
+        d = os.path.join(sc, name)
+        os.makedirs(os.path.join(d, "model"))
+        os.makedirs(os.path.join(d, "lib"))
+        open(os.path.join(d, "lib", "_package.yml"), "w").write("namespace: Lib\n")
+        open(os.path.join(d, "lib", "lib.yml"), "w").write("Point: !record\n  fields:\n    x: %s\n" % vt)
+        open(os.path.join(d, "model", "_package.yml"), "w").write("namespace: App\nimports:\n  - ../lib\npython:\n  outputDir: ../py\n")
+        open(os.path.join(d, "model", "m.yml"), "w").write("Point: !record\n  fields:\n    a: int\nP: !protocol\n  sequence:\n    p: Point\n    q: Lib.Point\n")
+        rc, o, e = run([yardl, "generate"], cwd=os.path.join(d, "model"), env=yardl_env(home), timeout=60)
+        if rc != 0:
+            raise Inconclusive("the name-clash model does not generate: " + e[-300:])
+        clash[name] = wirelib.extract_schema_py(open(os.path.join(d, "py", "app", "protocols.py")).read(), "P")
+    schemas.update(clash)
     if len(set(schemas.values())) != len(schemas):
         c.violation("C15:schema:not-distinguishing", "two of the protocols used here (differing in one field / one field type) have identical embedded schemas: %s" %
                     [n for n in schemas if list(schemas.values()).count(schemas[n]) > 1], {"schemas": schemas})
@@ -169,6 +184,38 @@ def main():
             c.violation("C15:%s:%s:accepted:%s" % (lang, fmt, fault), "stream with header fault [%s] was opened and a value was delivered: %s" % (fault, delivered[:2]), replay)
         elif req == "accept" and not (opened and delivered):
             c.violation("C15:%s:%s:refused-own" % (lang, fmt), "a well-formed stream carrying [%s] was refused: %s" % (fault or "the reader's own schema", lines[:2]), replay)
+    # ---- several readers in one process: having accepted a stream with its own reader must not make another protocol's
+    #      reader accept the same stream (all orders, both formats)
+    two = os.path.join(sc, "two")
+    os.makedirs(os.path.join(two, "model"))
+    open(os.path.join(two, "model", "_package.yml"), "w").write("namespace: Two\npython:\n  outputDir: ../py\n")
+    open(os.path.join(two, "model", "m.yml"), "w").write("P: !protocol\n  sequence:\n    a: int\n    s: !stream\n      items: int\n"
+                                                         "Q: !protocol\n  sequence:\n    a: int\n    s: !stream\n      items: double\n")
+    rc, o, e = run([yardl, "generate"], cwd=os.path.join(two, "model"), env=yardl_env(home), timeout=60)
+    if rc != 0:
+        raise Inconclusive("two-protocol model does not generate: " + e[-300:])
+    base_cmd = [PY, PYCALLS, os.path.join(two, "py"), "two"]
+    files = {}
+    for pr in ("P", "Q"):
+        for fmt in ("binary", "ndjson"):
+            files[(pr, fmt)] = os.path.join(two, "%s.%s" % (pr, fmt))
+            drivers.run_calls(base_cmd + [pr], "wcalls", fmt, files[(pr, fmt)], ["write 0 value 0", "write 1 list 2", "close"])
+    import itertools as _it
+    for fmt in ("binary", "ndjson"):
+        for order in _it.permutations([("P", "P"), ("Q", "P"), ("P", "Q"), ("Q", "Q")], 4):
+            script = ["open %s %s %s" % (reader, fmt, files[(stream, fmt)]) for reader, stream in order]
+            rc, lines, se = drivers.run_calls(base_cmd + ["P"], "multiopen", fmt, "-", script)
+            c.cov["traces_validated_against_impl"] += 1
+            c.count(("multiopen", fmt, order), nontrivial=True)
+            for (reader, stream), l in zip(order, lines):
+                want = "OPENED" if reader == stream else "REFUSED"
+                if not l.startswith(want):
+                    c.violation("C15:py:%s:sequence-of-readers" % fmt, "in one process, after %s: the %s reader given a stream of protocol %s answered %r" % (
+                        [x for x in order[:order.index((reader, stream))]], reader, stream, l[:120]), {"order": order, "observed": lines})
+                    break
+            else:
+                continue
+            break
     for x in cases[:3]:
         c.sample(x)
     c.cov["protocol_pairs"] = sorted(schemas)
